@@ -97,12 +97,12 @@ func specHash(lport, rport uint16) int {
 //@ func verifLemmaSums
 //@   props C40
 //@   requires specWeightsOK(g)
-//@   ensures[abs] implies(0 <= a && a <= b && b <= len(g), a <= specSum(g, a) && specSum(g, a) <= a*(1<<31-1))
-//@   ensures[rel] implies(0 <= a && a <= b && b <= len(g), specSum(g, a)+(b-a) <= specSum(g, b) && specSum(g, b) <= specSum(g, a)+(b-a)*(1<<31-1))
+//@   ensures[abs] implies(0 <= a && a <= b && b <= len(g), a <= specSum(g, a) && specSum(g, a) <= a<<31)
+//@   ensures[rel] implies(0 <= a && a <= b && b <= len(g), specSum(g, a)+(b-a) <= specSum(g, b) && specSum(g, b) <= specSum(g, a)+(b-a)<<31)
 //@   assigns nothing
-//@   loop 1 invariant 0 <= k && k <= a && k <= specSum(g, k) && specSum(g, k) <= k*(1<<31-1)
+//@   loop 1 invariant 0 <= k && k <= a && k <= specSum(g, k) && specSum(g, k) <= k<<31
 //@   loop 1 decreases a - k
-//@   loop 2 invariant a <= m && m <= b && a <= specSum(g, a) && specSum(g, a) <= a*(1<<31-1) && specSum(g, a)+(m-a) <= specSum(g, m) && specSum(g, m) <= specSum(g, a)+(m-a)*(1<<31-1)
+//@   loop 2 invariant a <= m && m <= b && a <= specSum(g, a) && specSum(g, a) <= a<<31 && specSum(g, a)+(m-a) <= specSum(g, m) && specSum(g, m) <= specSum(g, a)+(m-a)<<31
 //@   loop 2 decreases b - m
 
 func verifLemmaSums(g []Gateway, a, b int) {
@@ -139,26 +139,29 @@ func verifLemmaRoundMono(w1, w2, t uint64) {}
 //@   props C40
 //@   requires specWeightsOK(gateways)
 //@   assigns elems(gateways).bucketUpperBound
-//@   ensures[prop]   forall(func(j int) bool { return implies(0 <= j && j < len(gateways), gateways[j].bucketUpperBound == old(specBucket(gateways, j))) })
+//@   ghost jp int
+//@   ensures[prop]    implies(0 <= jp && jp < len(gateways), gateways[jp].bucketUpperBound == old(specBucket(gateways, jp)))
 //@   ensures[last]    gateways[len(gateways)-1].bucketUpperBound == 1<<31-1
 //@   ghost jm int
 //@   ensures[mono]    implies(0 <= jm && jm < len(gateways)-1, gateways[jm].bucketUpperBound <= gateways[jm+1].bucketUpperBound)
 //@   lemma[old] verifLemmaSums(gateways, jm+1, jm+2)
 //@   lemma[old] verifLemmaSums(gateways, jm+2, len(gateways))
 //@   lemma verifLemmaRoundMono(uint64(old(specSum(gateways, jm+1))), uint64(old(specSum(gateways, jm+2))), uint64(old(specSum(gateways, len(gateways)))))
-//@   ensures[lower]   forall(func(j int) bool { return implies(0 <= j && j < len(gateways), -1 <= gateways[j].bucketUpperBound && gateways[j].bucketUpperBound <= 1<<31-1) })
+//@   ensures[lower]   implies(0 <= jp && jp < len(gateways), -1 <= gateways[jp].bucketUpperBound && gateways[jp].bucketUpperBound <= 1<<31-1)
 //@   lemma[old] verifLemmaSums(gateways, len(gateways), len(gateways))
 //@   lemma verifLemmaRoundMono(uint64(old(specSum(gateways, len(gateways)))), uint64(old(specSum(gateways, len(gateways)))), uint64(old(specSum(gateways, len(gateways)))))
-//@   loop 1 invariant[sum] 0 <= i && i <= len(gateways) && totalWeight == specSum(gateways, i) && i <= totalWeight && totalWeight <= i*(1<<31-1)
+//@   loop 1 invariant[sum] 0 <= i && i <= len(gateways) && totalWeight == specSum(gateways, i) && i <= totalWeight && totalWeight <= i<<31
 //@   loop 2 lemma[old] verifLemmaSums(gateways, i-1, i)
 //@   loop 2 lemma[old] verifLemmaSums(gateways, i, len(gateways))
 //@   loop 2 lemma verifLemmaRoundMono(uint64(old(specSum(gateways, i-1))), uint64(old(specSum(gateways, i))), uint64(old(specSum(gateways, len(gateways)))))
 //@   loop 2 invariant[sum] 0 <= i && i <= len(gateways) && loopWeight == old(specSum(gateways, i)) && totalWeight == old(specSum(gateways, len(gateways))) && 1 <= totalWeight
 //@   loop 2 assigns elems(gateways).bucketUpperBound
 //@   loop 2 lemma[old] verifLemmaSums(gateways, i+1, len(gateways))
-//@   loop 2 invariant[prop]    forall(func(j int) bool { return implies(0 <= j && j < i, gateways[j].bucketUpperBound == old(specBucket(gateways, j))) })
+//@   loop 2 invariant[prop]    implies(0 <= jp && jp < i, gateways[jp].bucketUpperBound == old(specBucket(gateways, jp)))
+//@   loop 2 invariant[propm]   implies(0 <= jm && jm < i, gateways[jm].bucketUpperBound == old(specBucket(gateways, jm)))
+//@   loop 2 invariant[propm1]  implies(0 <= jm && jm < len(gateways)-1 && jm+1 < i, gateways[jm+1].bucketUpperBound == old(specBucket(gateways, jm+1)))
 //@   loop 2 invariant[lastb]   implies(i >= 1, gateways[i-1].bucketUpperBound == old(specBucket(gateways, i-1)))
-//@   loop 2 invariant[lower]   forall(func(j int) bool { return implies(0 <= j && j < i, -1 <= gateways[j].bucketUpperBound && gateways[j].bucketUpperBound <= 1<<31-1) })
+//@   loop 2 invariant[lower]   implies(0 <= jp && jp < i, -1 <= gateways[jp].bucketUpperBound && gateways[jp].bucketUpperBound <= 1<<31-1)
 
 //@ func hashPacket
 //@   props C40
